@@ -131,3 +131,112 @@ func Run(h History, opt Options) *Outcome {
 	}
 	return o
 }
+
+// Raw is the result of playing a history without a model.
+type Raw struct {
+	Out          []byte
+	Msgs         []pgwire.BMsg
+	GrammarErr   error
+	ErrOffset    int
+	Trace        []script.Event
+	Panics       []script.PanicRec
+	Closed       bool
+	Inconclusive string
+	Conn         *memnet.Conn
+}
+
+// RawOptions for RunRaw.
+type RawOptions struct {
+	AtOnce   bool   // preload every byte before the server starts reading
+	Prefix   []byte // sent before the startup packet (e.g. SSLRequest)
+	BadPass  bool   // send a wrong password when auth is configured
+	NoEOF    bool   // do not close the client side at the end
+	Fault    *memnet.Fault
+	KeepEnv  func(env *script.Env, s *script.Sess)
+	Stepwise bool // wait for quiescence after every message
+}
+
+// StartupBytes renders the startup (and password) bytes for a history.
+func StartupBytes(h History, badPass bool) []byte {
+	user := h.User
+	if user == "" {
+		user = "u"
+	}
+	if h.Cfg.Auth != nil {
+		user = h.Cfg.Auth.User
+	}
+	b := pgwire.Startup(script.DefaultPairs(user))
+	if h.Cfg.Auth != nil {
+		p := h.Cfg.Auth.Pass
+		if badPass {
+			p += "-wrong"
+		}
+		b = append(b, pgwire.Password(p)...)
+	}
+	return b
+}
+
+// RunRaw plays the history and returns everything observable.
+func RunRaw(h History, opt RawOptions) *Raw {
+	r := &Raw{}
+	env := script.Start(h.Cfg)
+	defer env.Stop()
+	c := env.NewConn()
+	r.Conn = c
+	if h.Segs != nil {
+		c.SetSegments(h.Segs, h.Cycle)
+	}
+	if opt.Fault != nil {
+		c.SetFault(opt.Fault)
+	}
+	first := append(append([]byte{}, opt.Prefix...), StartupBytes(h, opt.BadPass)...)
+	wait := func() bool {
+		if st := c.WaitIdle(script.Guard); st == memnet.Timeout {
+			r.Inconclusive = "no quiescence within the guard"
+			return false
+		}
+		return true
+	}
+	if opt.AtOnce {
+		all := first
+		for _, m := range h.Msgs {
+			all = append(all, m.Bytes()...)
+		}
+		c.Send(all)
+		if !opt.NoEOF {
+			c.CloseWrite()
+		}
+		_ = env.L.Deliver(c)
+		if !wait() {
+			return r
+		}
+	} else {
+		_ = env.L.Deliver(c)
+		c.Send(first)
+		if !wait() {
+			return r
+		}
+		for _, m := range h.Msgs {
+			c.Send(m.Bytes())
+			if opt.Stepwise && !wait() {
+				return r
+			}
+		}
+		if !opt.NoEOF {
+			c.CloseWrite()
+		}
+		if !wait() {
+			return r
+		}
+	}
+	r.Closed, _ = c.ServerClosed()
+	r.Out = c.Output()
+	body := r.Out
+	if len(opt.Prefix) > 0 && len(body) > 0 && (body[0] == 'N' || body[0] == 'S') {
+		body = body[1:]
+	}
+	r.Msgs, r.ErrOffset, r.GrammarErr = pgwire.ParseStream(body)
+	r.Trace = env.Trace()
+	r.Panics = env.Panics()
+	return r
+}
